@@ -31,10 +31,10 @@
    [cond_look] (one bit per pattern, read off the pattern text by the leg; mixed spellings are left out).
 
    Two knobs that are NOT in the code (both 0 / false = the code as it is):
-     strict (bits)  1: canBeMadeAtomic refuses the end of the expression (known finding c05-nonboundary-end)
-                       and the end of an atomic group once it has stepped over a \B, also when the \B was
-                       stepped over before an alternation whose branch the walk is in; 2: it does not walk
-                       up through a balancing capture.
+     strict (bits)  1: canBeMadeAtomic refuses the end of the expression once it has stepped over a \B
+                       (known finding c05-nonboundary-end; the end of an atomic group is refused by the
+                       code itself since ef188d6 / 1a8f8bf); 2: it does not walk up through a balancing
+                       capture.
      lite           the mandatory reducers are replaced by the identity wherever a gated branch re-reduces
                        a node (the proofs are about the lite pass; [lite = full] is a per-tree check).
    Oracles: cat_in (Model/CharClass.v), is_word_char = syntax.IsWordChar, is_ecma_word_char =
@@ -203,51 +203,47 @@ Definition fo_verdict (n s : rnode) (allow_lazy : bool) : res Z :=
           ((st =? T_NonECMABoundary) && (0 <? nm) && eq2 fo_not_ecma_word_class pp_not_digit_class, fo_yes) ]
   else Ok 0.
 
-(* [n] against the successor [sub] whose parents are [ctx].
-   [cseen]: steppedOverNonboundary of this call (since ef188d6: the walk does not leave an atomic group once it
-   has stepped over a \B; the flag is a local of the call, the calls for the branches of an alternation start
-   with a fresh one).  [sseen]: the same flag threaded through those calls too, used by strict bit 1 only *)
+(* canBeMadeAtomicAfter (893-1071): [n] against the successor [sub] whose parents are [ctx].
+   [seen]: steppedOverNonboundary (since ef188d6 / 1a8f8bf): the walk does not leave an atomic group once it has
+   stepped over a \B; the calls for the branches of an alternation continue the walk of their caller *)
 Fixpoint fo_cbma (fuel : nat) (strict : Z) (n sub : rnode) (ctx : list frame)
-         (iter allow_lazy cseen sseen : bool) : res bool :=
+         (iter allow_lazy seen : bool) : res bool :=
   match fuel with
   | O => Fuel
   | S f =>
     let '(s, ctx1) := fo_descend sub ctx in
-    if negb (n_o n =? n_o s) then Ok false                                (* 913 *)
-    else if useRTL (n_o n) then Ok false                                  (* 920 *)
+    if negb (n_o n =? n_o s) then Ok false                                (* 918 *)
+    else if useRTL (n_o n) then Ok false                                  (* 925 *)
     else
       let st := n_t s in
-      if (st =? T_Alternate) || ((st =? T_ExprCond) && (zlen (n_kids s) =? 3)) then    (* 930-938 *)
+      if (st =? T_Alternate) || ((st =? T_ExprCond) && (zlen (n_kids s) =? 3)) then    (* 935-943 *)
         (fix branches (ks : list rnode) : res bool :=
            match ks with
            | [] => Ok true
            | k :: ks' =>
-               do b <- fo_cbma f strict n k (mkF st false ks' :: ctx1) iter false false sseen ;
+               do b <- fo_cbma f strict n k (mkF st false ks' :: ctx1) iter false seen ;
                if b then branches ks' else Ok false
            end) (n_kids s)
       else
         do v <- fo_verdict n s allow_lazy ;
         if v =? 1 then Ok true
         else if v =? 0 then Ok false
-        else if negb iter then Ok false                                   (* 1014 *)
+        else if negb iter then Ok false                                   (* 1019 *)
         else
-          let nb := (st =? T_Nonboundary) || (st =? T_NonECMABoundary) in
-          let cseen1 := cseen || nb in                                    (* 1017-1019 *)
-          let sseen1 := sseen || nb in
-          let nb_stop := Z.testbit strict 0 && sseen1 in
-          (* 1021-1060 *)
+          let seen1 := seen || (st =? T_Nonboundary) || (st =? T_NonECMABoundary) in   (* 1022-1024 *)
+          (* 1026-1069 *)
           (fix up (c : list frame) : res bool :=
              match c with
-             | [] => Ok (negb nb_stop)                                    (* parent == nil: the root *)
+             | [] => Ok (negb (Z.testbit strict 0 && seen1))              (* parent == nil: the root *)
              | fr :: c' =>
                  let pt := f_t fr in
-                 if pt =? T_Atomic then (if cseen1 || nb_stop then Ok false else up c')
+                 if pt =? T_Atomic then (if seen1 then Ok false else up c')
                  else if pt =? T_Alternate then up c'
                  else if pt =? T_Capture then (if Z.testbit strict 1 && f_bal fr then Ok false else up c')
                  else if pt =? T_Concatenate then
                    match f_rights fr with
                    | [] => up c'
-                   | nx :: rs => fo_cbma f strict n nx (mkF T_Concatenate false rs :: c') iter allow_lazy cseen1 sseen1
+                   | nx :: rs => fo_cbma f strict n nx (mkF T_Concatenate false rs :: c') iter allow_lazy seen1
                    end
                  else Ok false
              end) ctx1
@@ -291,10 +287,10 @@ Fixpoint fo_pn (fuel : nat) (strict : Z) (node sub : rnode) (ctx : list frame) :
     let leaf (nd : rnode) : res rnode :=
       let t := n_t nd in
       if fo_is_charloop t then
-        do b <- fo_cbma f strict nd sub ctx true false false false ;
+        do b <- fo_cbma f strict nd sub ctx true false false ;
         Ok (if b then make_loop_atomic nd else nd)
       else if fo_is_charlazy t then
-        do b <- fo_cbma f strict nd sub ctx false true false false ;
+        do b <- fo_cbma f strict nd sub ctx false true false ;
         Ok (if b then make_loop_atomic (set_t nd (t - (T_Onelazy - T_Oneloop))) else nd)   (* lazy to greedy *)
       else if (t =? T_Alternate) || (t =? T_BackRefCond) || (t =? T_ExprCond) then
         let kids := n_kids nd in
@@ -310,7 +306,7 @@ Fixpoint fo_pn (fuel : nat) (strict : Z) (node sub : rnode) (ctx : list frame) :
       end
     else if t =? T_Loop then                                              (* 421-427 *)
       do r <- fo_loop_last node (fun first lastc =>
-                do b <- fo_cbma f strict lastc first [] false false false false ;
+                do b <- fo_cbma f strict lastc first [] false false false ;
                 if b then (do l' <- leaf lastc ; Ok (Some l')) else Ok None) ;
       match r with Some node' => Ok node' | None => Ok node end
     else leaf node
@@ -501,7 +497,7 @@ Fixpoint fo_ee (fuel : nat) (g : Z) (lite : bool) (par_atomic : bool) (node : rn
         if n_n nd =? 1 then first_kid false nd
         else
           do r <- fo_loop_last nd (fun first lastc =>
-                    do b <- fo_cbma f 0 lastc first [] false false false false ;
+                    do b <- fo_cbma f 0 lastc first [] false false false ;
                     if b then (do l' <- fo_ee f g lite false lastc ; Ok (Some l')) else Ok None) ;
           match r with Some nd' => Ok nd' | None => Ok nd end in
       if fo_is_charloop t || fo_is_charlazy t then Ok (make_loop_atomic node)              (* 764 *)
@@ -719,7 +715,7 @@ with fo_reduce (fuel : nat) (g : Z) (lite : bool) (mode : Z) (ptype : Z) (x : rn
         | c :: r =>
             if mode =? 2 then
               do c1 <- fo_ee f g lite false c ;
-              if n_t c1 =? T_Empty then Ok (RN t o1 ch m n str st (mk_node T_Empty (n_o c1) :: r))
+              if n_t c1 =? T_Empty then Ok (RN t o1 ch m n str st (mk_node T_Empty o1 :: r))      (* the PosLook node itself, 530-536 *)
               else
                 do c2 <- fo_reduce f g lite 0 T_ExprCond c1 ;
                 do c3 <- fo_ee f g lite false c2 ;
@@ -775,11 +771,8 @@ Fixpoint fo_bump (fuel : nat) (g : Z) (node : rnode) (aba committing : bool) : r
     else Ok (node, None)
   end.
 
-(* ---------------------------------------------------------------- finalOptimize (304-377) after the gated parse *)
-Definition fo_final_optimize (fuel : nat) (g strict : Z) (lite cond_look : bool) (root : rnode) : res rnode :=
-  do r0 <- (if fo_gate g 2 && fo_gate g 8 && fo_gate g 16 then Ok root
-            else do kids' <- fo_map_res (fo_rr fuel g lite (if cond_look then 2 else 1) (n_t root)) (n_kids root) ;
-                 Ok (set_kids root kids')) ;
+(* ---------------------------------------------------------------- finalOptimize (304-377) *)
+Definition fo_final_passes (fuel : nat) (g strict : Z) (lite : bool) (r0 : rnode) : res rnode :=
   if useRTL (n_o r0) then Ok r0
   else
     do r1 <- (if fo_gate g 1 then Ok r0 else fo_fa fuel strict r0 []) ;
@@ -788,5 +781,12 @@ Definition fo_final_optimize (fuel : nat) (g strict : Z) (lite cond_look : bool)
     | [] => Crash 56
     | k :: ks => do r <- fo_bump fuel g k true false ; Ok (set_kids r2 (fst r :: ks))
     end.
+
+(* the tree of the parse under mask [g] from the tree of the parse under mask 31 *)
+Definition fo_final_optimize (fuel : nat) (g strict : Z) (lite cond_look : bool) (root : rnode) : res rnode :=
+  do r0 <- (if fo_gate g 2 && fo_gate g 8 && fo_gate g 16 then Ok root
+            else do kids' <- fo_map_res (fo_rr fuel g lite (if cond_look then 2 else 1) (n_t root)) (n_kids root) ;
+                 Ok (set_kids root kids')) ;
+  fo_final_passes fuel g strict lite r0.
 
 End FinalOpt.
